@@ -25,6 +25,7 @@ type dfile struct {
 	data    []byte
 
 	id        age.Identity
+	hdrOnly   bool   // header-size sweep file (built and dropped inside its task)
 	ifaceOnly bool   // quick tier: only the optional-interface kinds run on this file
 	kclass    string // class used in violation keys (class when empty)
 	ws        bool   // valid armor with added leading/trailing white space (treated like marmor for read sizes)
